@@ -1,6 +1,8 @@
 package rules
 
 import (
+	"go/token"
+	"sort"
 	"strings"
 
 	"golang.org/x/tools/go/ssa"
@@ -17,7 +19,8 @@ func c18(c *Ctx) {
 	r.Decides("in evictPods an eviction is dominated by the continue-condition evaluated in the same iteration being true and by the pod filter passing; between a successful eviction and the next evaluation of the condition the node usage and the shared headroom are decremented (unless the pod has no metric)")
 	r.Decides("the balance call is unreachable when no node is overloaded, no overloaded node is a confirmed anomaly, no node is underused, too few nodes are underused, or all nodes are underused")
 	r.Decides("the source nodes handed to the eviction are the anomaly-filtered overloaded classes; the continue-condition returns true only for a node that is still over its high threshold and while every thresholded resource still has positive headroom")
-	r.Declines("thresholds and running estimates numerically; classification arithmetic; anomaly counters over rounds")
+	r.Decides("anomaly gating: the overloaded nodes are filtered by the per-node detector unless no (or a single-round) condition is configured; the detector enters the anomaly state only when the configured condition holds on a counter that counts consecutive abnormal marks")
+	r.Declines("thresholds and running estimates numerically; classification arithmetic; detector timeouts/generations over wall-clock time")
 
 	if fn := c.Fn(deschedLoadPkg, "", "evictPods"); fn != nil {
 		c18evict(c, fn)
@@ -25,6 +28,7 @@ func c18(c *Ctx) {
 	if fn := c.Fn(deschedLoadPkg, "LowNodeLoad", "processOneNodePool"); fn != nil {
 		c18pool(c, fn)
 	}
+	c18anomaly(c)
 }
 
 func dynCallOf(fn *ssa.Function, param string) []ssa.CallInstruction {
@@ -281,4 +285,208 @@ func c18pool(c *Ctx, fn *ssa.Function) {
 		}
 	}
 	r.Check(thr, "FLOW", key+"/continue-condition/high-threshold", c.InstrPos(over), "compared against the high thresholds", "the continue-condition no longer compares against the high thresholds")
+}
+
+const anomalyPkg = "pkg/descheduler/utils/anomaly"
+
+// c18anomaly: the structural part of "has been over the threshold for the required consecutive rounds".
+func c18anomaly(c *Ctx) {
+	r := c.R
+	r.Rule("PATH(anomaly gate): filterRealAbnormalNodes returns its input unfiltered only when no anomaly condition is configured or it asks for a single abnormality; otherwise a node is appended only under Mark(false) == StateAnomaly; the configured AnomalyConditionFn compares the counter's ConsecutiveAbnormalities with the configured number by > or >=")
+	if fn := c.Fn(deschedLoadPkg, "", "filterRealAbnormalNodes"); fn != nil {
+		key := fkey(fn)
+		var src *ssa.Parameter
+		for _, p := range fn.Params {
+			if p.Name() == "sourceNodes" {
+				src = p
+			}
+		}
+		facts := an.Facts{}
+		for _, b := range fn.Blocks {
+			for _, in := range b.Instrs {
+				bo, ok := in.(*ssa.BinOp)
+				if !ok {
+					continue
+				}
+				if bo.Op == token.EQL && strings.HasSuffix(an.Path(bo.X), "anomalyCondition") && an.IsNilConst(bo.Y) {
+					facts[bo] = an.False
+				}
+				// "== 1", "<= 1", "< 2": at most one abnormality required
+				if k, isC := constIntOf(bo.Y); isC && strings.HasSuffix(an.Path(bo.X), ".ConsecutiveAbnormalities") &&
+					(bo.Op == token.EQL && k == 1 || bo.Op == token.LEQ && k == 1 || bo.Op == token.LSS && k == 2) {
+					facts[bo] = an.False
+				}
+			}
+		}
+		if src == nil || len(facts) != 2 {
+			r.Unknown("PATH", key+"/bypass", c.Pos(fn.Pos()), sprintf("bypass conditions not recognised (%d of 2)", len(facts)))
+		} else {
+			reach := an.Explore(fn, nil, facts, nil)
+			bad := ""
+			for _, ret := range reach.Returns() {
+				for _, l := range an.Sources(ret.Results[0], nil) {
+					if l == ssa.Value(src) {
+						bad = c.InstrPos(ret)
+					}
+				}
+			}
+			r.Check(bad == "", "PATH", key+"/bypass", c.Pos(fn.Pos()), "the unfiltered list is returned only without an anomaly condition (or with a single required abnormality)", "with an anomaly condition that requires several consecutive abnormalities the overloaded nodes are still returned unfiltered at "+bad)
+		}
+		n := 0
+		for _, cl := range an.Calls(fn, false) {
+			if !an.IsBuiltinCall(cl.Value(), "append") {
+				continue
+			}
+			n++
+			ok := false
+			for _, g := range an.Guards(cl) {
+				bo, isB := g.Cond.(*ssa.BinOp)
+				if !isB || bo.Op != token.EQL || !g.Truth {
+					continue
+				}
+				k, isC := constIntOf(bo.Y)
+				call, idx := an.ResultOfCall(bo.X)
+				if isC && k == 1 && call != nil && idx == 0 && call.Call.IsInvoke() && call.Call.Method.Name() == "Mark" && isFalseConst(call.Call.Args[0]) {
+					ok = true
+				}
+			}
+			r.Check(ok, "PATH", key+"/append-needs-anomaly-state", c.InstrPos(cl), "a node is kept only when Mark(false) reports StateAnomaly", "a node is appended to the confirmed-anomaly list without Mark(false) having returned StateAnomaly")
+		}
+		if n == 0 {
+			r.Fail("PATH", key+"/append-needs-anomaly-state", c.Pos(fn.Pos()), "no append found: the filter result is not built from the detector verdicts")
+		}
+		// the configured condition
+		found := false
+		for _, cf := range fn.AnonFuncs {
+			stored := false
+			for _, b := range fn.Blocks {
+				for _, in := range b.Instrs {
+					if st, ok := in.(*ssa.Store); ok {
+						if mc, ok := st.Val.(*ssa.MakeClosure); ok && mc.Fn == ssa.Value(cf) && strings.HasSuffix(an.Path(st.Addr), ".AnomalyConditionFn") {
+							stored = true
+						}
+					}
+				}
+			}
+			if !stored {
+				continue
+			}
+			found = true
+			ok := true
+			for _, b := range cf.Blocks {
+				ret, isR := b.Instrs[len(b.Instrs)-1].(*ssa.Return)
+				if !isR {
+					continue
+				}
+				bo, isB := ret.Results[0].(*ssa.BinOp)
+				if !isB || (bo.Op != token.GTR && bo.Op != token.GEQ) || !strings.HasSuffix(an.Path(bo.X), "counter.ConsecutiveAbnormalities") || !strings.HasSuffix(an.Path(bo.Y), "anomalyCondition.ConsecutiveAbnormalities") {
+					ok = false
+				}
+			}
+			r.Check(ok, "PATH", key+"/condition-fn", c.Pos(cf.Pos()), "anomaly = consecutive abnormalities above the configured number", "the AnomalyConditionFn handed to the detector is not 'counter.ConsecutiveAbnormalities >(=) anomalyCondition.ConsecutiveAbnormalities'")
+		}
+		if !found {
+			r.Fail("PATH", key+"/condition-fn", c.Pos(fn.Pos()), "no closure is stored into Options.AnomalyConditionFn: the configured number of consecutive abnormalities is not used")
+		}
+	}
+
+	r.Rule("TYPESTATE(detector): BasicDetector.state is written only in setState; setState(StateAnomaly) is called only from onAbnormalities, either in the already-anomalous arm or under anomalyConditionFn(d.counter)==true; Mark calls onAbnormalities only for normality==false; Counter.ConsecutiveAbnormalities is only ever incremented by one in onAbnormalities and set to zero elsewhere (onNormality, clear)")
+	stateWriters, consecWriters := map[string]bool{}, map[string]string{}
+	var toAnomaly []ssa.CallInstruction
+	for _, fn := range c.PkgFuncs(anomalyPkg) {
+		for _, b := range fn.Blocks {
+			for _, in := range b.Instrs {
+				switch x := in.(type) {
+				case *ssa.Store:
+					owner, field, _, ok := an.FieldOf(x.Addr)
+					if !ok {
+						continue
+					}
+					if strings.HasSuffix(owner, "BasicDetector") && field == "state" {
+						stateWriters[fn.Name()] = true
+					}
+					if strings.HasSuffix(owner, "Counter") && field == "ConsecutiveAbnormalities" {
+						kind := "other"
+						if k, isC := constIntOf(x.Val); isC && k == 0 {
+							kind = "zero"
+						} else if bo, isB := x.Val.(*ssa.BinOp); isB && bo.Op == token.ADD {
+							if k, isC := constIntOf(bo.Y); isC && k == 1 {
+								if ld, isL := bo.X.(*ssa.UnOp); isL && an.Path(ld.X) == an.Path(x.Addr) {
+									kind = "inc"
+								}
+							}
+						}
+						if prev, seen := consecWriters[fn.Name()]; seen && prev != kind {
+							kind = "other"
+						}
+						consecWriters[fn.Name()] = kind
+					}
+				case ssa.CallInstruction:
+					if an.ShortCallee(x.Common()) == "setState" && len(x.Common().Args) >= 2 {
+						if k, isC := constIntOf(x.Common().Args[1]); !isC || k == 1 {
+							toAnomaly = append(toAnomaly, x)
+						}
+					}
+				}
+			}
+		}
+	}
+	k := "pkg/descheduler/utils/anomaly.BasicDetector"
+	sw := keysOf(stateWriters)
+	r.Check(len(sw) == 1 && sw[0] == "setState", "TYPESTATE", k+"/state-writers", "", "state is written by setState only", sprintf("BasicDetector.state is written by %v; only setState may change the detector state", sw))
+	okInc := consecWriters["onAbnormalities"] == "inc"
+	var others []string
+	for f, kind := range consecWriters {
+		if f != "onAbnormalities" && kind != "zero" {
+			others = append(others, f+":"+kind)
+		}
+	}
+	sort.Strings(others)
+	r.Check(okInc && len(others) == 0 && consecWriters["onNormality"] == "zero", "TYPESTATE", k+"/consecutive-counter", "", "ConsecutiveAbnormalities: +1 in onAbnormalities, reset to 0 by onNormality/clear", sprintf("ConsecutiveAbnormalities is not a count of consecutive abnormal marks (onAbnormalities:%s onNormality:%s others:%v)", consecWriters["onAbnormalities"], consecWriters["onNormality"], others))
+	if len(toAnomaly) == 0 {
+		r.Fail("TYPESTATE", k+"/to-anomaly", "", "no setState(StateAnomaly) call found")
+	}
+	for i, cl := range toAnomaly {
+		fn := cl.Parent()
+		ok := fn.Name() == "onAbnormalities"
+		why := "called from " + fn.Name()
+		if ok {
+			ok = false
+			for _, g := range an.Guards(cl) {
+				if !g.Truth {
+					continue
+				}
+				if call, isC := g.Cond.(*ssa.Call); isC && strings.HasSuffix(an.Path(call.Call.Value), ".anomalyConditionFn") && len(call.Call.Args) == 1 && strings.HasSuffix(an.Path(call.Call.Args[0]), ".counter") {
+					ok = true
+				}
+				if bo, isB := g.Cond.(*ssa.BinOp); isB && bo.Op == token.EQL {
+					if p, isP := bo.X.(*ssa.Parameter); isP && p.Name() == "state" {
+						if kk, isC := constIntOf(bo.Y); isC && kk == 1 {
+							ok = true
+						}
+					}
+				}
+			}
+			why = "not guarded by anomalyConditionFn(d.counter) or by the already-anomalous arm"
+		}
+		r.Check(ok, "TYPESTATE", sprintf("%s/to-anomaly/%s#%d", k, fn.Name(), i), c.InstrPos(cl), "transition to StateAnomaly only under the anomaly condition", "setState(StateAnomaly) is "+why)
+	}
+	if mark := c.Fn(anomalyPkg, "BasicDetector", "Mark"); mark != nil {
+		ok, n := true, 0
+		for _, cl := range an.Calls(mark, false) {
+			switch an.ShortCallee(cl.Common()) {
+			case "onAbnormalities", "onNormality":
+				n++
+				want := an.ShortCallee(cl.Common()) == "onNormality"
+				good := false
+				for _, g := range an.Guards(cl) {
+					if p, isP := g.Cond.(*ssa.Parameter); isP && p.Name() == "normality" && g.Truth == want {
+						good = true
+					}
+				}
+				ok = ok && good
+			}
+		}
+		r.Check(ok && n == 2, "TYPESTATE", k+"/mark-dispatch", c.Pos(mark.Pos()), "Mark(false) counts an abnormality, Mark(true) a normality", "Mark does not dispatch normality==false to onAbnormalities and normality==true to onNormality")
+	}
 }
